@@ -424,12 +424,23 @@ def inline_pure_locals(ref_fn, cur_fn) -> int:
     for n in ast.walk(cur_fn):
         if isinstance(n, ast.Name) and isinstance(n.ctx, (ast.Store, ast.Del)):
             stores.setdefault(n.id, []).append(n)
-    params = {a.arg for f in ast.walk(cur_fn) if isinstance(f, FuncNode + (ast.Lambda,)) for a in f.args.args + f.args.kwonlyargs + f.args.posonlyargs}
+    params = set()
+    for f in ast.walk(cur_fn):
+        if isinstance(f, FuncNode + (ast.Lambda,)):
+            params |= {a.arg for a in f.args.args + f.args.kwonlyargs + f.args.posonlyargs}
+            params |= {a.arg for a in (f.args.vararg, f.args.kwarg) if a is not None}
     total = 0
     for st in list(cur_fn.body):
         if not (isinstance(st, ast.Assign) and len(st.targets) == 1 and isinstance(st.targets[0], ast.Name)):
             continue
         v = st.targets[0].id
+        # every read comes after the binding (the binding is a top-level statement; reads in earlier statements, or in closures defined earlier,
+        # would see another value), and the bound expression does not mention the name itself
+        idx = cur_fn.body.index(st)
+        if any(isinstance(n, ast.Name) and n.id == v for n in ast.walk(st.value)):
+            continue
+        if any(isinstance(n, ast.Name) and n.id == v for earlier in cur_fn.body[:idx] for n in ast.walk(earlier)):
+            continue
         if v in ref_locals or v in params or len(stores.get(v, [])) != 1:
             continue
         val = st.value
